@@ -678,8 +678,16 @@ static int gen_random (ProgSpec *ps, VhRng *r, unsigned profile, int len)
         for (i = 0; i < ps->nvars; i++) if (ps->vars[i].kind == VK_TEMP && ps->vars[i].size == op->ssz[0] && written[i]) cand[nc++] = i;
         if (!nc) ok = 0; else in.src[0] = cand[vh_randn (r, nc)];
       } else if (op->kind == RK_LOADOFF || op->kind == RK_RESNEAR || op->kind == RK_RESLIN) {
-        /* offset / resampling parameters: params, valued by the runner inside the allocated source */
-        int v = gen_add_var (ps, VK_PARAM, 4);
+        /* offset / resampling parameters: params, valued by the runner inside the allocated source; or constants */
+        int v = -1;
+        if (vh_chance (r, 1, 3)) {
+          uint64_t cv = op->kind == RK_LOADOFF ? (uint64_t) (int64_t) ((int) vh_randn (r, 41) - 20)       /* as orc_program_add_constant (int) stores it */
+              : k == 1 ? vh_randn (r, 4u << 16)
+              : (vh_chance (r, 1, 4) ? (1u << 16) : vh_chance (r, 1, 4) ? 70000u : vh_randn (r, (1u << 16) + 200));
+          v = gen_add_var (ps, VK_CONST, 4);
+          if (v >= 0) ps->vars[v].value = cv;
+        }
+        if (v < 0) v = gen_add_var (ps, VK_PARAM, 4);
         if (v < 0) ok = 0;
         in.src[k] = v;
       } else {
